@@ -124,7 +124,7 @@ func C11(e *Env) {
 		}
 	}
 	run.Obs("layouts_in_product", len(layouts))
-	netEvery := e.Pick(13, 1)
+	netEvery := e.Pick(4, 1)
 	p := e.Worker(worker.Config{Root: base, BufSize: 65536}, "c11", false, 0)
 	defer p.Stop()
 	addr := p.HostPort()
